@@ -898,7 +898,9 @@ pub fn restart_part(tier: Tier) -> Part {
                                 }
                             }
                             for m in &due {
-                                if members.contains(m) {
+                                // (a member that received fresh heartbeats and is live at this evaluation
+                                // has not been dead for the whole period: it legitimately stays)
+                                if members.contains(m) && dead.contains(m) {
                                     return Some((format!("{name}: {}#{} was dead at every evaluation for {} ms (>= grace) and is still present after the evaluation", m.node_id, m.generation, now - dead_since[i][m]), "not-removed-after-grace".into()));
                                 }
                             }
